@@ -34,7 +34,7 @@ func evalTerm(t string, vars map[string]string, env map[string]int64) (int64, st
 		return 0, "undefined:" + v
 	}
 	// a parenthesised comparison used as an operand: (x == nil), !(a < b)
-	if strings.HasPrefix(t, "(") || strings.HasPrefix(t, "!") {
+	if isWholeParen(t) || strings.HasPrefix(t, "!") {
 		if v, err := evalAPExpr(t, vars, env); err == "" {
 			return v, ""
 		} else if strings.HasPrefix(err, "undefined:") {
@@ -42,6 +42,25 @@ func evalTerm(t string, vars map[string]string, env map[string]int64) (int64, st
 		}
 	}
 	return 0, "unknown:" + t
+}
+
+// isWholeParen: t is "( … )" with the first parenthesis closed by the last one.
+func isWholeParen(t string) bool {
+	if !strings.HasPrefix(t, "(") || !strings.HasSuffix(t, ")") {
+		return false
+	}
+	depth := 0
+	for i, ch := range t {
+		if ch == '(' {
+			depth++
+		} else if ch == ')' {
+			depth--
+			if depth == 0 {
+				return i == len(t)-1
+			}
+		}
+	}
+	return false
 }
 
 func evalLit(l Lit, vars map[string]string, env map[string]int64) (bool, string) {
